@@ -158,6 +158,40 @@ pub fn check_lifecycles(
             }
         }
     }
+    // ---- transients injected while the application state was built: one fresh value per site
+    {
+        let mut seen: BTreeMap<usize, Vec<u64>> = BTreeMap::new();
+        let built_at_startup: BTreeSet<u64> = be.iter().filter(|x| x.kind == "built" || x.kind == "clone").map(|x| x.v[if x.kind == "built" { "id" } else { "new" }].as_u64().unwrap_or(0)).collect();
+        for x in &be {
+            if x.kind != "recv" {
+                continue;
+            }
+            let Some(t) = ty_of(x.v["ty"].as_str().unwrap_or("")) else { continue };
+            if spec.types[t].life != Life::Transient || spec.types[t].is_copy {
+                continue;
+            }
+            let (id, root) = (x.v["id"].as_u64().unwrap_or(0), x.v["root"].as_u64().unwrap_or(0));
+            if id != root {
+                return Err(("transient-cloned-at-startup".into(), format!("{} received a clone of transient {} while the application state was built", x.comp, type_name(k, t))));
+            }
+            if !built_at_startup.contains(&id) {
+                return Err(("value-from-nowhere".into(), format!("{} received {} #{id} at start-up, which was never built", x.comp, type_name(k, t))));
+            }
+            seen.entry(t).or_default().push(id);
+        }
+        for (t, ids) in &seen {
+            let set: BTreeSet<u64> = ids.iter().copied().collect();
+            if set.len() != ids.len() {
+                return Err((
+                    "transient-shared".into(),
+                    format!("an instance of transient {} was injected at two sites while the application state was built (ids received: {ids:?})", type_name(k, *t)),
+                ));
+            }
+            if ids.len() >= 2 {
+                labels.push("transient:>=2-sites-at-startup".to_string());
+            }
+        }
+    }
     // ---- clones
     for x in &e {
         if x.kind == "clone" {
